@@ -266,9 +266,7 @@ def instances(tier, seed):
         for ks in key_sets(width):
             n += 1
             yield 'h_canon', dict(width=width, keys=list(orders(ks, n)[n % 2]), vk=['u8', 'u64', 'cell'][n % 3])
-    w4 = list(key_sets(4))
-    for ks in (rnd.sample(w4, 120) if tier == 'quick' else w4):
-        yield 'h_canon', dict(width=4, keys=list(ks))
+    w4 = rnd.sample(list(key_sets(4)), 120 if tier == 'quick' else 15000)
     for width in (8, 32, 64, 256, 267, 1023):
         top = (1 << width) - 1
         for ks in ([0], [top], [0, top], [0, 1], [top, top - 1], [0, 1, 2, 3], [0, top, top - 1, 1 << (width - 1), 1, 1 << (width // 2)],
@@ -300,6 +298,9 @@ def instances(tier, seed):
         for i, (a, p) in enumerate(combos):
             for aug in (False, True):
                 yield 'h_parse_valid', dict(width=width, keys=keys, assign=a, aug=aug, prune=list(p), via=('parse', 'wrapper')[i % 2])
+    # the bulk family last, so that a wall-clock cap never cuts the scenarios above
+    for ks in w4:
+        yield 'h_canon', dict(width=4, keys=list(ks))
 
 
 def twins(tier, seed):
@@ -311,7 +312,7 @@ INSTANCE_TIMEOUT = {'quick': 200, 'thorough': 1200}
 BOUNDS = {
     'label kind kernel': 'all 0 <= n <= m <= 1023 and both values of the all-equal flag (symbolic), if detect_label_type/is_same exist',
     'label writer/reader': 'key sizes ' + str(M_SET) + ' (quick: a subset), label lengths 0..12, m-1, m; label bits symbolic (labels longer than 24 bits: 8 symbolic bits at each end), plus all-equal labels of a symbolic bit',
-    'canonical trees': 'every key set of widths 1..3, width 4 (quick: 120 seeded sets; thorough: all 65 535), selected sets of widths 8..1023; '
+    'canonical trees': 'every key set of widths 1..3, width 4 (quick: 120 seeded sets; thorough: 15 000 seeded sets of the 65 535), selected sets of widths 8..1023; '
                        'symbolic keys as in C09',
     'parsers': '18 trees of up to 4 leaves (widths 1..32): every valid label kind assignment x every antichain of pruned sub-trees '
                '(quick: 24 seeded combinations per tree; thorough: up to 600), plain and augmented, direct and through the HashmapE/HashmapAugE wrapper',
